@@ -64,7 +64,7 @@ func c03modelGeom(g orb.Geometry) orb.Geometry {
 	case orb.Ring:
 		return c03regroup([]orb.Ring{x})
 	case orb.Bound:
-		return c03regroup([]orb.Ring{x.ToRing()})
+		return c03regroup([]orb.Ring{refmodel.BoundRing(x)})
 	case orb.Polygon:
 		return c03regroup(x)
 	case orb.MultiPolygon:
